@@ -151,10 +151,6 @@ func (c *Channel) Deliver(out, x []byte) ([]byte, error) {
 			if err != nil {
 				continue
 			}
-			if isApp {
-				appData = out
-				return nil, nil
-			}
 			// if the session became ready, then make it the current and notify.
 			if !readyBefore && s.IsReady() {
 				if i != 2 {
@@ -163,6 +159,10 @@ func (c *Channel) Deliver(out, x []byte) ([]byte, error) {
 				if err := c.onReadySession(now); err != nil {
 					return nil, err
 				}
+			}
+			if isApp {
+				appData = out
+				return nil, nil
 			}
 			if len(out) == 0 {
 				continue
@@ -325,7 +325,7 @@ func (c *Channel) proposeNewSession(sid [32]byte, newS *Session) (ret *Session) 
 func (c *Channel) onReadySession(now time.Time) error {
 	se := c.sessions[2]
 	sessRemote := se.Session.RemoteKey()
-	if !c.remoteKey.IsZero() && !x509.EqualPublicKeys(&c.remoteKey, &sessRemote) {
+	if err := c.checkKey(&sessRemote); err != nil {
 		c.setNext(sessionEntry{})
 		return errors.New("session negotiated with wrong peer")
 	}
